@@ -720,7 +720,10 @@ def tr_log_macros(mr, unrec, G):
             m = re.fullmatch(r"\$crate::if_log_enabled!\{\$level,\{(.*)\}\}", body)
             lets = []
             pr = parse_ifs(m.group(1), lets) if m else None
-            if pr is None or pr[1] != "$callsite.log(logger,log_meta,$value_set)" or any(e is not None for e in pr[2]) or body.count("$value_set") != 1:
+            # the leaf is a call whose LAST argument is the value set: it is evaluated exactly when the call is reached, i.e.
+            # under the conditions met on the way (whatever the callee then tests comes too late for the argument)
+            if pr is None or not re.fullmatch(r"\$callsite\.log\((?:[^{};]*,)?\$value_set\)", pr[1]) or any(e is not None for e in pr[2]) \
+                    or body.count("$value_set") != 1:
                 unrec.append("__tracing_log! body under %s" % modes)
                 continue
             r = log_conds(pr[0], lets, unrec, "__tracing_log! %s" % modes)
